@@ -86,6 +86,30 @@ def _replace_returns(block, mk):
     return out or [ast.Pass()]
 
 
+def _abrupt(block):
+    return bool(block) and isinstance(block[-1], (ast.Return, ast.Raise))
+
+
+def _to_tail_form(block):
+    """`if c: return x` + rest  ->  `if c: return x else: rest` (recursively): early returns become tail returns"""
+    out = []
+    for i, s in enumerate(block):
+        rest = block[i + 1:]
+        if isinstance(s, ast.If):
+            s.body = _to_tail_form(s.body)
+            s.orelse = _to_tail_form(s.orelse)
+            if rest and _abrupt(s.body) and not s.orelse:
+                s.orelse = _to_tail_form(rest)
+                out.append(s)
+                return out
+            if rest and s.orelse and _abrupt(s.orelse) and not _abrupt(s.body):
+                s.body = s.body + _to_tail_form(rest)
+                out.append(s)
+                return out
+        out.append(s)
+    return out
+
+
 class _Rename(ast.NodeTransformer):
     def __init__(self, mapping, self_name, self_expr):
         self.mapping, self.self_name, self.self_expr = mapping, self_name, self_expr
@@ -162,8 +186,10 @@ class Inliner:
         body = copy.deepcopy(g.node_orig.body if getattr(g, "node_orig", None) is not None and False else g.node.body)
         if body and isinstance(body[0], ast.Expr) and isinstance(body[0].value, ast.Constant) and isinstance(body[0].value.value, str):
             body = body[1:]  # docstring
-        if mode != "return" and not _tail_ok(body):
-            return None
+        if mode != "return":
+            body = _to_tail_form(body)
+            if not _tail_ok(body):
+                return None
         self.count += 1
         pre = "_i%d_" % self.count
         params = list(g.params)
@@ -261,6 +287,15 @@ class Inliner:
                 h = self.helper_for(s.value, f)
                 if h:
                     rep = self.expand(s.value, f, h[0], h[1], "assign", targets=s.targets)
+            elif isinstance(s, ast.Assign) and isinstance(s.value, ast.Call) and len(s.targets) == 1 and isinstance(s.targets[0], (ast.Subscript, ast.Attribute)):
+                # `obj[k] = h(..)`: Python evaluates the right-hand side first, so  tmp = h(..); obj[k] = tmp  is the same
+                h = self.helper_for(s.value, f)
+                if h:
+                    tmp = ast.Name(id="_i%d_result" % (self.count + 1), ctx=ast.Store())
+                    rep = self.expand(s.value, f, h[0], h[1], "assign", targets=[tmp])
+                    if rep is not None:
+                        fin = ast.Assign(targets=s.targets, value=ast.Name(id=tmp.id, ctx=ast.Load()))
+                        rep = rep + [ast.fix_missing_locations(ast.copy_location(fin, s))]
             elif isinstance(s, ast.Expr) and isinstance(s.value, ast.Call):
                 h = self.helper_for(s.value, f)
                 if h:
